@@ -10,6 +10,7 @@ import (
 	"io"
 	"io/ioutil"
 	"os"
+	"reflect"
 	"sort"
 	"sync"
 	"sync/atomic"
@@ -17,6 +18,7 @@ import (
 
 	"github.com/tikv/client-go/v2/testutils"
 	"github.com/tikv/client-go/v2/tikv"
+	"github.com/tikv/client-go/v2/tikvrpc"
 	"github.com/tikv/client-go/v2/util/codec"
 	pd "github.com/tikv/pd/client"
 	"k8s.io/klog/v2"
@@ -73,6 +75,8 @@ type Engine struct {
 	KV      storage.KvStorage
 	Cluster *testutils.MockCluster
 	PD      pd.Client
+	// TiKV is the fault layer INSIDE the TiKV engine, between the adapter and the (mock) cluster (tikv kinds only)
+	TiKV *TiKVFault
 	// Below is the engine-side fault layer under the metrics wrapper (metrics* kinds only)
 	Below   *gate.Faulty
 	cleanup func()
@@ -83,6 +87,37 @@ func (e *Engine) Close() {
 	if e.cleanup != nil {
 		e.cleanup()
 	}
+}
+
+// TiKVFault sits between the TiKV adapter's transactions and the cluster: armed, it turns the answer to the next point read of
+// a transaction (the read a put-if-absent or a compare-and-swap does) into an aborted one. Unarmed it is a pass-through.
+type TiKVFault struct {
+	tikv.Client
+	armed    int32
+	Injected int32
+}
+
+// ArmGet makes the next transactional point read fail.
+func (c *TiKVFault) ArmGet() { atomic.StoreInt32(&c.armed, 1) }
+
+// Disarm drops a fault that was not used.
+func (c *TiKVFault) Disarm() { atomic.StoreInt32(&c.armed, 0) }
+
+// SendRequest implements tikv.Client.
+func (c *TiKVFault) SendRequest(ctx context.Context, addr string, req *tikvrpc.Request, timeout time.Duration) (*tikvrpc.Response, error) {
+	resp, err := c.Client.SendRequest(ctx, addr, req, timeout)
+	if err != nil || req.Type != tikvrpc.CmdGet || !atomic.CompareAndSwapInt32(&c.armed, 1, 0) {
+		return resp, err
+	}
+	// GetResponse{Error: &KeyError{Abort: ...}} (by reflection: kvproto is not a direct dependency)
+	atomic.AddInt32(&c.Injected, 1)
+	get := reflect.ValueOf(resp.Resp).Elem()
+	keyErr := reflect.New(get.FieldByName("Error").Type().Elem())
+	keyErr.Elem().FieldByName("Abort").SetString("injected read fault")
+	get.FieldByName("Error").Set(keyErr)
+	get.FieldByName("Value").SetBytes(nil)
+	get.FieldByName("NotFound").SetBool(false)
+	return resp, nil
 }
 
 // NewEngine opens an engine: memkv, badger, tikv, metrics (metrics wrapper over memkv),
@@ -108,12 +143,13 @@ func NewEngine(kind string) (*Engine, error) {
 			return nil, err
 		}
 		testutils.BootstrapWithSingleStore(cluster)
-		store, err := tikv.NewTestTiKVStore(rpcClient, pdClient, nil, nil, 0)
+		fc := &TiKVFault{}
+		store, err := tikv.NewTestTiKVStore(rpcClient, pdClient, func(c tikv.Client) tikv.Client { fc.Client = c; return fc }, nil, 0)
 		if err != nil {
 			return nil, err
 		}
 		kv := itikv.NewKvStoreWithStorage([]*tikv.KVStore{store})
-		return &Engine{Kind: kind, KV: kv, Cluster: cluster, PD: pdClient, cleanup: func() { kv.Close() }}, nil
+		return &Engine{Kind: kind, KV: kv, Cluster: cluster, PD: pdClient, TiKV: fc, cleanup: func() { kv.Close() }}, nil
 	case "tikv-regions":
 		// the same mock cluster; the driver splits it into several regions at run time (SplitAt)
 		e, err := NewEngine("tikv")
@@ -138,7 +174,7 @@ func NewEngine(kind string) (*Engine, error) {
 			return nil, err
 		}
 		f := gate.NewFaulty(e.KV)
-		return &Engine{Kind: kind, KV: imetrics.NewKvStorage(f, Metrics()), Below: f, Cluster: e.Cluster, cleanup: e.cleanup}, nil
+		return &Engine{Kind: kind, KV: imetrics.NewKvStorage(f, Metrics()), Below: f, Cluster: e.Cluster, TiKV: e.TiKV, cleanup: e.cleanup}, nil
 	}
 	return nil, fmt.Errorf("unknown engine %q", kind)
 }
